@@ -284,6 +284,11 @@ type Typedef struct {
 	Units       *Value `yang:"units"`
 
 	YangType *YangType `json:"-"`
+
+	// resolving is set while the typedef is being resolved, so that a
+	// typedef that is (directly or indirectly) derived from itself is
+	// detected instead of recursing without end.
+	resolving bool
 }
 
 func (Typedef) Kind() string             { return "typedef" }
